@@ -187,3 +187,32 @@ pub fn impulse_positions(n: usize, full: bool) -> Vec<usize> {
     p.dedup();
     p
 }
+
+/// Cheap inputs for oracle-free checks at any n (no trig table needed)
+pub fn cheap(n: usize, seed: u64, dynamic_exp: i32) -> Vec<(String, Vec<C<f64>>)> {
+    let mut v = Vec::new();
+    if n == 0 {
+        return v;
+    }
+    let mut rng = Rng::new(seed ^ (n as u64).wrapping_mul(0xA24BAED4963EE407));
+    v.push(("dense:uniform[-1,1]".to_string(), (0..n).map(|_| C::new(rng.sym(), rng.sym())).collect()));
+    v.push(("impulse:mid".to_string(), {
+        let mut x = vec![C::new(0.0, 0.0); n];
+        x[n / 2] = C::new(1.0, -1.0);
+        x
+    }));
+    v.push(("ones".to_string(), vec![C::new(1.0, 0.0); n]));
+    v.push(("ramp".to_string(), (0..n).map(|j| C::new(j as f64 / n as f64 - 0.5, 0.25 - j as f64 / (2.0 * n as f64))).collect()));
+    v.push((
+        format!("dynrange:2^+-{}", dynamic_exp),
+        (0..n)
+            .map(|_| {
+                let e1 = (rng.below((2 * dynamic_exp + 1) as u64) as i32) - dynamic_exp;
+                let e2 = (rng.below((2 * dynamic_exp + 1) as u64) as i32) - dynamic_exp;
+                C::new((1.0 + rng.unit()) * rng.sym().signum() * 2f64.powi(e1), (1.0 + rng.unit()) * rng.sym().signum() * 2f64.powi(e2))
+            })
+            .collect(),
+    ));
+    v.push(("dense:uniform[0,1]".to_string(), (0..n).map(|_| C::new(rng.unit(), rng.unit())).collect()));
+    v
+}
